@@ -322,3 +322,10 @@ From Kardia Require Import C02.SourceTie.
 Theorem C02_source_tie : C02_source_tie_statement.
 Proof. exact C02_source_tie_proof. Qed.
 Print Assumptions C02_source_tie.
+
+(** The decision-critical functions of the anchored code have exactly the decisions the source tie knows about
+    (go2coq manifests, regenerated from /repo on every check; statement in SourceManifest.v). *)
+From Kardia Require Import C02.SourceManifest.
+Theorem C02_source_manifest : C02_source_manifest_statement.
+Proof. exact C02_source_manifest_proof. Qed.
+Print Assumptions C02_source_manifest.
